@@ -5,7 +5,8 @@
     (Glue) submission threads over the shared [is_running] flag and pending collections; one step
     per marked source line; all interleavings = all action sequences accepted by [run]/[reach].
     The cloud API is the fake that completes every tracked job when polled. *)
-From Coq Require Import List Bool Arith.
+From Coq Require Import List Bool Arith ZArith.
+From RV Require Import Model.ArrCounter Proofs.ArrCounterInv.
 From RV Require Import Model.Monitor Proofs.MonitorBase Proofs.MonitorWitness Proofs.MonitorFixed.
 Import ListNotations.
 Open Scope list_scope.
@@ -80,6 +81,30 @@ Proof.
   split; vm_compute; reflexivity.
 Qed.
 
+(** ---- The arrayer counter read by the AWS Batch / K8S / GCP Batch monitor guards ----
+    [Model/ArrCounter.v]: add_job (locked), submit_pending_jobs (pop locked; submit; decrement
+    locked or as an unprotected read / store), monitor poll and exit (pending map empty and
+    num_pending = 0; stop() stops the arrayer).  Unbounded jobs, all interleavings. *)
+Theorem C10_counter_exact : forall js s, areach arr_locked (ainit js) s ->
+  a_num s = Z.of_nat (length (a_held s) + length (inflight (a_pc s))).
+Proof. exact counter_exact. Qed.
+
+Theorem C10_counter_exit_safe : forall js s, areach arr_locked (ainit js) s -> a_stopped s = true ->
+  forall j, In j js -> In j (a_todo s) \/ In j (a_reported s).
+Proof. exact exit_safe. Qed.
+
+(** Decrement outside the lock: lost update, num_pending = 0 with a job still held, the monitor
+    stops everything, the job is never reported. *)
+Theorem C10_counter_refuted_unlocked : counter_loses arr_unlocked.
+Proof. exact unlocked_loses. Qed.
+
+Theorem C10_counter_locked_never_loses : ~ counter_loses arr_locked.
+Proof. exact locked_never_loses. Qed.
+
+Print Assumptions C10_counter_exact.
+Print Assumptions C10_counter_exit_safe.
+Print Assumptions C10_counter_refuted_unlocked.
+Print Assumptions C10_counter_locked_never_loses.
 Print Assumptions C10_refuted_docker.
 Print Assumptions C10_refuted_aws_batch.
 Print Assumptions C10_refuted_k8s.
